@@ -297,7 +297,24 @@ func (r *rwRT) ruleIterType() {
 			found = true
 			edits := cursorEdits(o.St, 0)
 			var err error
-			if isIter {
+			// the predicate must be asked about the indexed operand (X of X[T]), not about the whole expression
+			operandAsked := false
+			for _, e := range o.St.Events {
+				if e.Kind == "call" && e.Fn != nil && e.Fn.Name() == "TypeOf" && len(e.Args) >= 1 && e.Ret != nil {
+					if countLeaf(o.St, e.Args[len(e.Args)-1], "n.X") == 1 && countLeaf(o.St, e.Args[len(e.Args)-1], "n.Index") == 0 {
+						for _, l := range o.St.Labels {
+							if strings.HasPrefix(l, "isIterator("+argLabel(e.Ret)+")") {
+								operandAsked = true
+							}
+						}
+					}
+				}
+			}
+			if !operandAsked {
+				err = fmt.Errorf("the iterator-type predicate is not applied to the type of the indexed operand X of X[T] (an element access such as its[i] of iterator element type would be replaced too)")
+			}
+			if err != nil {
+			} else if isIter {
 				if len(edits) != 1 || edits[0].Fn.Name() != "Replace" {
 					err = fmt.Errorf("expected one Replace, got %d edits", len(edits))
 				} else {
